@@ -40,7 +40,8 @@ pub struct DynamicGraph<T: Clone> {
 impl<T: Clone + Copy> Default for DynamicGraph<T> {
     fn default() -> Self {
         Self {
-            node_array: Vec::new(),
+            // the node array always ends with two entries past the last node
+            node_array: vec![NodeArrayEntry::new(0), NodeArrayEntry::new(0)],
             edge_array: Vec::new(),
 
             number_of_nodes: 0,
@@ -91,9 +92,10 @@ impl<T: Clone + Copy> DynamicGraph<T> {
         let number_of_edges = input.len();
 
         let mut graph = DynamicGraph::<T> {
+            node_array: Vec::new(),
+            edge_array: Vec::new(),
             number_of_nodes,
             number_of_edges,
-            ..Default::default()
         };
         // +1 as we are going to add one sentinel node at the end
         graph.node_array.reserve(number_of_nodes + 1);
